@@ -94,6 +94,15 @@ def run(prop, tier, seed, opts):
         sres = V.run_tlc(scratch, "EngineLife", "MC_C01_sim.cfg", workers=1, timeout=900, sub="tlc-sim",
                          extra=["-simulate", "num=%d" % nwalks, "-depth", "25", "-seed", str(seed)])
         V.tlc_ok(sres, "EngineLife/MC_C01_sim.cfg")
+        # behaviours that start after a prepared prefix of registrations (pairs of sources that reach each other, a
+        # policy-less second engine) and continue with every sequence of 3 (4) renders / GCs
+        pcfg = "MC_C01_prep.cfg" if tier == "quick" else "MC_C01_prep_thorough.cfg"
+        pres = V.run_tlc(scratch, "EngineLife", pcfg, workers=8, timeout=1500, sub="tlc-prep")
+        V.tlc_ok(pres, "EngineLife/" + pcfg)
+        with open(pres["cases"]) as f:
+            for l in f:
+                if l.strip() and '"hdr":true' not in l[:400]:
+                    case_lines.append(l)
         n_exhaustive = len(case_lines)
         with open(sres["cases"]) as f:
             for l in f:
